@@ -451,8 +451,16 @@ fn termination_family(seed: u64, tier: Tier) -> (Vec<(String, String)>, u64, Val
     let t_period = MinVariation::<HCtx, Obj, Ind, String>::new_with_period(period, threshold, is_global, "p".to_string());
     let t_time = MaxTime::<HCtx, Obj, Ind>::new(max_time);
     let t_gen = MaxGeneration::<HCtx, Obj, Ind>::new(max_gen);
-    let target: Vec<f64> = (0..layers).map(|_| p.f64() * 100.0).collect();
-    let t_target = TargetProximity::<HCtx, Obj, Ind>::new(target.clone(), *p.pick(&[0.0, 0.01, 0.5]));
+    // a layer which is exactly zero all the time (e.g. "no unassigned jobs"), in the fitness and (mostly) in the target too
+    let zero_layer: Option<usize> = if p.chance(0.35) { Some(p.usize(0, layers - 1)) } else { None };
+    let mut target: Vec<f64> = (0..layers).map(|_| p.f64() * 100.0).collect();
+    if let Some(z) = zero_layer {
+        if p.chance(0.7) {
+            target[z] = 0.0;
+        }
+    }
+    let target_threshold = *p.pick(&[0.0, 0.01, 0.5, 1.0]);
+    let t_target = TargetProximity::<HCtx, Obj, Ind>::new(target.clone(), target_threshold);
     let period_start = sys::clock_now_ns();
     let _ = period_start;
 
@@ -481,6 +489,7 @@ fn termination_family(seed: u64, tier: Tier) -> (Vec<(String, String)>, u64, Val
                 }
             })
             .collect();
+        let fit: Vec<f64> = fit.into_iter().enumerate().map(|(i, x)| if zero_layer == Some(i) { 0.0 } else { x }).collect();
         if best.as_ref().is_none_or(|b| lex(&fit, b) == Ordering::Less) {
             best = Some(fit.clone());
         }
@@ -556,7 +565,17 @@ fn termination_family(seed: u64, tier: Tier) -> (Vec<(String, String)>, u64, Val
         }
         // ---- target proximity against an independent relative distance
         let fired = t_target.is_termination(&mut ctx);
-        let _ = fired;
+        {
+            // documented: D = sqrt(sum (|x - y| / max(|x|, |y|))^2), a component which is zero on both sides contributes 0
+            let d = target.iter().zip(best_now.iter()).map(|(a, b)| {
+                let div = a.abs().max(b.abs());
+                let c = if div == 0.0 { 0.0 } else { (a - b).abs() / div };
+                c * c
+            }).sum::<f64>().sqrt();
+            if !best_now.is_empty() && (d - target_threshold).abs() > 1e-12 && fired != (d < target_threshold) {
+                issues.push(("target-proximity".into(), format!("step {step}: best fitness {:?}, target {:?}: relative distance {d}, threshold {target_threshold}, fired={fired}", best_now, target)));
+            }
+        }
         if issues.len() > 8 {
             break;
         }
